@@ -2,6 +2,7 @@ SPECIFICATION Spec
 CONSTANTS
   MaxOps = 16
   Batches = {1, 2, 3, 4, 5, 7}
+  MaxSess = 4
   Dev = {}
 INVARIANT VisiblePrefix
 INVARIANT AtBoundary
